@@ -510,6 +510,20 @@ func mayRecover(g *ssa.Function) bool {
 	return false
 }
 
+// callsRecover: g's own body (not a literal inside it) calls the builtin recover.
+func callsRecover(g *ssa.Function) bool {
+	for _, b := range g.Blocks {
+		for _, x := range b.Instrs {
+			if c, ok := x.(*ssa.Call); ok {
+				if bi, isB := c.Call.Value.(*ssa.Builtin); isB && bi.Name() == "recover" {
+					return true
+				}
+			}
+		}
+	}
+	return false
+}
+
 func staticCallee(cc *ssa.CallCommon) *ssa.Function {
 	if cc.IsInvoke() {
 		return nil
@@ -1797,6 +1811,16 @@ func (in *inliner) process(f *ssa.Function) {
 				}
 				if g := staticCallee(cc); g != nil {
 					if in.cand[g] {
+						// recover() only stops a panic when the deferred function itself calls it: a
+						// helper that calls recover() is not the same thing once its body stands in
+						// its caller, so an ordinary call of it stays a call (deferring the helper
+						// itself, `defer h()`, is rewritten: there the helper is the deferred function)
+						if _, isCall := x.(*ssa.Call); isCall && callsRecover(g) {
+							if in.skipped[g] == "" {
+								in.skipped[g] = "calls recover(): only meaningful as the deferred function itself"
+							}
+							continue
+						}
 						site = x
 						break scan
 					}
@@ -1804,6 +1828,9 @@ func (in *inliner) process(f *ssa.Function) {
 					if call, isCall := x.(*ssa.Call); isCall && g.Parent() != nil && len(g.FreeVars) == 0 && g != f && g.Blocks != nil && closures < 80 {
 						if _, ok := in.inlinable(g); ok {
 							_ = call
+							if callsRecover(g) {
+								continue
+							}
 							site, dyn = x, &funcValue{fn: g, owner: f}
 							break scan
 						}
@@ -1837,7 +1864,7 @@ func (in *inliner) process(f *ssa.Function) {
 					site = x
 					break scan
 				}
-				if _, ok := in.inlinable(fv.fn); !ok {
+				if _, ok := in.inlinable(fv.fn); !ok || callsRecover(fv.fn) {
 					continue
 				}
 				site, dyn = x, fv
